@@ -80,6 +80,7 @@ func runC10(c *Ctx) {
 	checkPairwiseLoops(c, p, fns)
 	checkBufferCopiedInLoop(c, p, fns)
 	checkGrowingListRescanned(c, p, fns)
+	checkLineKeyedTables(c, p, fns)
 	// R10.6 no quadratic string accumulation
 	checkStringAccumulation(c, p, fns)
 	// R10.7 lazily built parts of a document exist wherever they are used
@@ -959,4 +960,84 @@ func checkGrowingListRescanned(c *Ctx, p *core.Prog, fns []*ssa.Function) {
 	if n == 0 {
 		c.R.OK("R10.11", "no loop re-walks a list that the enclosing loop extends", v2pkg, "range loops over slices in the library's functions examined")
 	}
+}
+
+// checkLineKeyedTables: R10.12. A table that is indexed by line numbers is a map, or the index stands behind a test against the
+// table's length. Line numbers come from two sources that need not agree - the tokens (the last token's line) and the notice
+// pseudo-matches, which leave no token: a slice sized by one of them and indexed by the other is out of range for an input
+// whose last word-bearing line is a notice. Decided for index expressions that derive (through phis and +/- constants) from a
+// load of a field named ...Line.
+func checkLineKeyedTables(c *Ctx, p *core.Prog, fns []*ssa.Function) {
+	fromLine := func(v ssa.Value) bool {
+		seen := map[ssa.Value]bool{}
+		var walk func(v ssa.Value, d int) bool
+		walk = func(v ssa.Value, d int) bool {
+			v = core.Unspill(v)
+			if v == nil || seen[v] || d > 6 {
+				return false
+			}
+			seen[v] = true
+			switch x := v.(type) {
+			case *ssa.Phi:
+				for _, e := range x.Edges {
+					if walk(e, d+1) {
+						return true
+					}
+				}
+			case *ssa.BinOp:
+				if x.Op == token.ADD || x.Op == token.SUB {
+					return walk(x.X, d+1) || walk(x.Y, d+1)
+				}
+			case *ssa.Convert:
+				return walk(x.X, d+1)
+			case *ssa.UnOp:
+				if fa, ok := x.X.(*ssa.FieldAddr); ok && x.Op == token.MUL {
+					return strings.HasSuffix(core.FieldName(fa), "Line")
+				}
+			case *ssa.Field:
+				if st := core.StructOf(x.X.Type()); st != nil {
+					return strings.HasSuffix(st.Field(x.Field).Name(), "Line")
+				}
+			}
+			return false
+		}
+		return walk(v, 0)
+	}
+	n, bad := 0, ""
+	for _, fn := range fns {
+		if isTraceFn(fn) {
+			continue
+		}
+		for _, b := range fn.Blocks {
+			for _, in := range b.Instrs {
+				ia, ok := in.(*ssa.IndexAddr)
+				if !ok {
+					continue
+				}
+				if _, isSl := ia.X.Type().Underlying().(*types.Slice); !isSl || !fromLine(ia.Index) {
+					continue
+				}
+				n++
+				guarded := false
+				for _, f := range core.FactsAt(b) {
+					cmp, ok := f.AsCmp()
+					if !ok {
+						continue
+					}
+					for _, o := range []ssa.Value{cmp.X, cmp.Y} {
+						if call, isCall := o.(*ssa.Call); isCall {
+							if bi, isB := call.Call.Value.(*ssa.Builtin); isB && bi.Name() == "len" && sameSliceBase(call.Call.Args[0], ia.X) {
+								guarded = true
+							}
+						}
+					}
+				}
+				if !guarded && bad == "" {
+					bad = core.ShortFn(fn) + ": " + p.Pos(ia.Pos())
+				}
+			}
+		}
+	}
+	c.R.Check(bad == "", "R10.12", "a table indexed by line numbers is a map, or the index is tested against its length", v2pkg, fmt.Sprintf("%d slice accesses indexed by a line number", n),
+		"a slice is indexed by a line number without a test against its length ("+bad+"): the lines of notice pseudo-matches are not bounded by the line of the last token, so an input whose last word-bearing line is a notice makes Match panic")
 }
